@@ -80,7 +80,14 @@ pub fn exec(case: &Value) -> Value {
             let bx = gi(case, "bx") == 1 && x0 >= 1 && y0 >= 1;
             let hb = if bx { (Excluded(x0 - 1), Excluded(x1)) } else { (Included(x0), Excluded(x1)) };
             let vb = if bx { (Excluded(y0 - 1), Included(y1 - 1)) } else { (Included(y0), Excluded(y1)) };
-            let cam = Camera::new((fw, fh))
+            // "pre": the camera has been given another viewport before (the request lies inside both the
+            // frame and the extent of that earlier one, so there is one reading of what it asks for)
+            let cam = Camera::new((fw, fh));
+            let cam = match case.get("pre") {
+                Some(pre) => { let q = ia(pre); cam.viewport((q[0] as u32..q[2] as u32, q[1] as u32..q[3] as u32)) }
+                None => cam,
+            };
+            let cam = cam
                 .viewport((hb, vb))
                 .perspective(f, 1.0..100.0)
                 .mode(Mat4x4::<WorldToView>::identity());
@@ -262,6 +269,18 @@ pub fn gen(args: &Args, out: &mut dyn Write) {
         let z = rng.range(2, 40);
         emit(out, json!({"op": "cam", "fw": fw, "fh": fh, "rq": [x0, y0, x1, y1], "fn": fnn, "fd": fd,
                          "p": [rng.range(-z, z), rng.range(-z, z), z], "bx": rng.below(3) / 2}));
+    }
+    // ... set twice: first an inset viewport, then one at the origin of the same or a smaller size
+    for i in 0..(if thorough { 6_000 } else { 300 }) {
+        let (fw, fh) = (rng.range(8, 64), rng.range(8, 48));
+        let (px0, py0) = (rng.range(1, fw / 2), rng.range(1, fh / 2));
+        let (px1, py1) = (rng.range(px0 + 2, fw), rng.range(py0 + 2, fh));
+        let (pw, ph) = (px1 - px0, py1 - py0);
+        let rq = if i % 2 == 0 { [0, 0, pw, ph] } else { let (a, b) = (rng.range(0, pw - 1), rng.range(0, ph - 1)); [a, b, rng.range(a + 1, pw), rng.range(b + 1, ph)] };
+        let (fnn, fd) = *rng.pick(&fs);
+        let z = rng.range(2, 40);
+        emit(out, json!({"op": "cam", "fw": fw, "fh": fh, "pre": [px0, py0, px1, py1], "rq": rq, "fn": fnn, "fd": fd,
+                         "p": [rng.range(-z, z), rng.range(-z, z), z], "bx": 0}));
     }
     // orthographic cameras, builder calls in both orders
     for i in 0..(if thorough { 6_000 } else { 600 }) {
